@@ -161,6 +161,67 @@ func enEquiv(items []enCat, cat []enCat) []core.Finding {
 	return fs
 }
 
+// enShared: ONE rule object, written with interline and end-of-line annotations, is used by several schemas in turn;
+// every use must give the verdict of the inline list, and the rule's own Values()/GetAST() must not change by being used.
+func enShared(items []enCat, cat []enCat) []core.Finding {
+	return core.Guard("enum-shared", func() []core.Finding {
+		var texts []string
+		for _, it := range items {
+			texts = append(texts, it.Text)
+		}
+		inline := "[" + strings.Join(texts, ", ") + "]"
+		var sb strings.Builder
+		sb.WriteString("[\n  // an interline annotation\n")
+		for i, t := range texts {
+			sb.WriteString("  " + t)
+			if i < len(texts)-1 {
+				sb.WriteString(",")
+			}
+			if i%2 == 0 {
+				sb.WriteString(" // note " + fmt.Sprint(i))
+			}
+			sb.WriteString("\n")
+			if i == 0 && len(texts) > 1 {
+				sb.WriteString("  /* another interline\n     annotation */\n")
+			}
+		}
+		sb.WriteString("]")
+		ruleText := sb.String()
+		rule := enum.New("@rule", ruleText)
+		snap := func() string {
+			vs, err := rule.Values()
+			var out []string
+			for _, v := range vs {
+				out = append(out, v.Value.String()+":"+string(v.Type)+":"+v.Comment)
+			}
+			a, _ := rule.GetAST()
+			ab, _ := json.Marshal(a)
+			return fmt.Sprint(out, err) + string(ab)
+		}
+		before := snap()
+		for round := 0; round < 2; round++ {
+			for _, v := range cat {
+				if v.Exp {
+					continue
+				}
+				named := jschema.New("named", v.Text+" // {enum: @rule}")
+				if err := named.AddRule("@rule", rule); err != nil {
+					return []core.Finding{{Class: "enum:shared-rule:addrule", What: fmt.Sprintf("AddRule of the shared rule %q fails on a later use: %v", ruleText, firstLineOf(err))}}
+				}
+				lit := jschema.New("inline", v.Text+" // {enum: "+inline+"}")
+				e1, e2 := named.Check(), lit.Check()
+				if (e1 == nil) != (e2 == nil) || errCode(e1) != errCode(e2) {
+					return []core.Finding{{Class: "enum:shared-rule:named-vs-inline", What: fmt.Sprintf("rule object reused (round %d): value %s against %s: by name -> %v, inline -> %v", round, v.Text, inline, firstLineOf(e1), firstLineOf(e2))}}
+				}
+				if now := snap(); now != before {
+					return []core.Finding{{Class: "enum:shared-rule:values-changed", What: fmt.Sprintf("Values()/GetAST() of rule %q changed after it was used by a schema: %.200s -> %.200s", ruleText, before, now)}}
+				}
+			}
+		}
+		return nil
+	})
+}
+
 func runC17(c *core.Ctx) error {
 	res, err := tlc.Run(tlc.Opts{Module: "EnumRule", Cfg: "EnumRule_graph.cfg", Workers: 8, DumpDot: true})
 	defer res.Cleanup()
@@ -250,7 +311,8 @@ func runC17(c *core.Ctx) error {
 			equivMu.Unlock()
 			if !seen {
 				c.Report(cs, enEquiv(cs.Values, cat))
-				c.CountEval(len(cat))
+				c.Report(cs, enShared(cs.Values, cat))
+				c.CountEval(3 * len(cat))
 			}
 		}
 	}
@@ -310,6 +372,7 @@ func init() {
 				cat = append(cat, cs.Values...)
 				cat = append(cat, enCat{Text: "1", Kind: "integer"}, enCat{Text: `"a"`, Kind: "string", Str: "a"}, enCat{Text: `"zz"`, Kind: "string", Str: "zz"}, enCat{Text: "null", Kind: "null"})
 				fs = append(fs, enEquiv(cs.Values, cat)...)
+				fs = append(fs, enShared(cs.Values, cat)...)
 			}
 			return fs, nil
 		}})
